@@ -257,6 +257,14 @@ func (s *Stack) GetInt(expr string) (int, bool) {
 		return int(t), true
 	case uint:
 		return int(t), true
+	case uint8:
+		return int(t), true
+	case uint16:
+		return int(t), true
+	case uint32:
+		return int(t), true
+	case uint64:
+		return int(t), true
 	case float32:
 		return int(t), true
 	case float64:
